@@ -32,6 +32,7 @@ type Env struct {
 	depth  int
 	bound  map[string]bool
 	fr     *Frame
+	localsFirst bool
 }
 
 func (e *Env) child() *Env {
@@ -292,6 +293,11 @@ func (x *Exec) evalSpec(e *Expr, env *Env) Val {
 func (x *Exec) evalIdent(name string, env *Env) Val {
 	if env.fr != nil && !env.bound[name] {
 		if v, ok := x.lookupPhi(env.fr, name, env.st); ok {
+			return v
+		}
+	}
+	if env.localsFirst && env.fr != nil && !env.bound[name] {
+		if v, ok := x.lookupLocal(env.fr, name, env.st); ok {
 			return v
 		}
 	}
